@@ -41,6 +41,7 @@ def run(names, checks_override, repo):
         checks = checks_override or meta.get('checks') or [meta['property']]
         r = sh(f'git -C {repo} apply {d}/patch.diff || (git -C {repo} apply --3way {d}/patch.diff && git -C {repo} reset -q)')
         if r.returncode != 0:
+            sh(f'git -C {repo} reset -q --hard' if repo != '/repo' else f'git -C {repo} checkout -- .')
             results[n] = {'error': 'patch does not apply: ' + r.stderr[:200]}
             print(n, results[n]); continue
         try:
@@ -52,7 +53,7 @@ def run(names, checks_override, repo):
                 out[c] = {'exit': p.returncode, 'violation': 'VIOLATION property=' in p.stdout, 'signatures': sigs[:4], 'wall_s': round(time.time() - t0, 1)}
             results[n] = out
         finally:
-            sh(f'git -C {repo} checkout -- .')
+            sh(f'git -C {repo} reset -q --hard' if repo != '/repo' else f'git -C {repo} checkout -- .')
         caught = any(v['violation'] for v in out.values())
         print(n, 'CAUGHT' if caught else 'MISSED', json.dumps(out)[:400], flush=True)
         meta['detection'] = out
